@@ -54,7 +54,7 @@ def rand_ops(rng, c, n):
             i_, d_ = rng.choice(pres) if pres and rng.random() < 0.6 else (rng.randrange(len(ins)), rng.randrange(len(dif)))
             ops.append(("nps", i_, d_, form, rng.randint(0, last + 5), rng.randint(0, last + 400)))
         elif r < 0.6:
-            tk = rng.randint(-2, last + 500)
+            tk = rng.choice([rng.randint(-2, last + 500), rng.randint(-2, last + 500), -1, -rng.randint(2, 300), last + 1000])
             # the same tick asked several ways in a row: a hint that must be refused, no hint, the hint again
             for h in rng.sample([0, 1, 2, 3, 5], rng.choice([1, 1, 2, 3])):
                 ops.append(("tsat", tk, h))
@@ -66,6 +66,13 @@ def rand_ops(rng, c, n):
             ops.append(("derived", rng.randrange(1 << 30)))
         else:
             ops.append(("setattr", rng.randrange(1 << 30)))
+    be = c.sync_track.bpm_events
+    if len(be) > 20:
+        # a long tempo map: a lookup deep into it, then before its start, then in its middle, then at its very end
+        deep = [("tsat", be[-1].tick + rng.randint(0, 50), 0), ("tsat", -rng.randint(1, 9), 0), ("tsat", be[len(be) // 2].tick + 1, rng.choice([0, 3])),
+                ("tsat", be[-1].tick, 0), ("tsat", be[1].tick - 1, 0)]
+        at = rng.randint(0, len(ops))
+        ops[at:at] = deep
     return ops
 
 
@@ -198,7 +205,8 @@ def run_case(text, ops):
     if problem is None:
         # what an operation answers is a function of the chart and the operation: the same operation on a freshly parsed copy,
         # with nothing asked before it, answers the same (checked for the value-producing operations, a bounded sample per case)
-        idx = [k for k, op in enumerate(ops) if op[0] in ("tsat", "nps")][:10]
+        idx = [k for k, op in enumerate(ops) if op[0] in ("tsat", "nps")]
+        idx = idx[:4] + idx[4:][-8:]  # the first few and the ones with the longest past
         for k in idx:
             fresh, _, _ = impl.parse(text)
             apply(fresh, twin, ops[k])
@@ -220,6 +228,13 @@ def slice(ctx: fw.Ctx) -> fw.Outcome:
             diffs = rng.sample(range(4), min(4, len(src.tracks)))
             for tr, d in zip(src.tracks, diffs):
                 tr.inst, tr.diff = inst, d
+        if rng.random() < 0.25:
+            # a long tempo map (40 tempo events within a few hundred ticks): lookups deep into it, then again before its start
+            t_, tempo_ = 0, []
+            for _ in range(rng.randint(34, 48)):
+                tempo_.append((t_, rng.choice([120000, 60000, 90000, 150000, 200000])))
+                t_ += rng.randint(1, 9)
+            src.tempo = tempo_
         if rng.random() < 0.3:
             # a left-over section: star-power phrases and track events but not a single note (rate queries on it fail)
             free = [(i, d) for i in range(10) for d in range(4) if (i, d) not in {(t.inst, t.diff) for t in src.tracks}]
